@@ -464,12 +464,15 @@ def _workload(tier, rng, shard, nshards, work=None):
             mem_s = audio.Wav(bytes(seg.frames), [1, seg.sampleWidth, seg.frameRate, len(seg.frames) // seg.sampleWidth, "NONE", "not compressed"])
             outs = []
             for a_, s_ in ((mem_t, mem_s), (target, seg)):
+                # (monitors stay on: the step budget of the zero-crossing search is what ends a search that would never end)
                 try:
-                    with core.paused():
-                        o = praatio_scripts.audioSplice(a_, s_, tg.new(), "words", "SPLICE", start, stop, align)
+                    o = praatio_scripts.audioSplice(a_, s_, tg.new(), "words", "SPLICE", start, stop, align)
                     outs.append(("returned", bytes(o[0].frames), snap.tg_snap(o[1])))
                 except Exception as e:
                     outs.append(("raised", type(e).__name__, None))
+                except StepBudgetExceeded:
+                    _budget["active"] = False
+                    outs.append(("raised", "StepBudgetExceeded", None))
             if outs[0] != outs[1]:
                 REC.violation(PROP, "splice", "audioSplice", {"call": "splice-origin", "width": target.sampleWidth, "rate": target.frameRate, "samples": W.decode(bytes(mem_t.frames), target.sampleWidth),
                                                                 "seg": W.decode(bytes(mem_s.frames), seg.sampleWidth), "tg": snap.tg_snap(tg), "start": start, "stop": stop, "align": align, "file_is_segment": bool(k % 2)},
@@ -503,10 +506,14 @@ def replay(v, work):
                         a_ = audio.Wav.open(fnw)
                 try:
                     with core.paused():
-                        o = praatio_scripts.audioSplice(a_, s_, snap.build_tg(c["tg"]), "words", "SPLICE", c["start"], c["stop"], c["align"])
+                        tg_ = snap.build_tg(c["tg"])
+                    o = praatio_scripts.audioSplice(a_, s_, tg_, "words", "SPLICE", c["start"], c["stop"], c["align"])
                     outs.append(("returned", bytes(o[0].frames), snap.tg_snap(o[1])))
                 except Exception as e:
                     outs.append(("raised", type(e).__name__, None))
+                except StepBudgetExceeded:
+                    _budget["active"] = False
+                    outs.append(("raised", "StepBudgetExceeded", None))
             if outs[0] != outs[1]:
                 REC.violation(PROP, "splice", "audioSplice", c, "the same splice ends differently when one recording was opened from a file (%s vs %s)" % (outs[0][:2] if outs[0][0] == "raised" else "returned", outs[1][:2] if outs[1][0] == "raised" else "returned"), ("splice-origin",), {"op": "splice-origin"})
             else:
